@@ -136,6 +136,24 @@ class ParticleObjectStorer(BaseStorer):
         None
         """
         super().__init__(particle_object_list, **kwargs)
+        # The loader reports the number of events of the full input list and
+        # the particle numbers as a plain list without event numbers. Build
+        # the bookkeeping of the events actually held in the layout all other
+        # methods expect: one (event number, number of particles) row per event.
+        events = kwargs.get("events")
+        first_event = 0
+        if isinstance(events, tuple):
+            first_event = events[0]
+        elif isinstance(events, int):
+            first_event = events
+        self.num_events_ = len(self.particle_list_)
+        self.num_output_per_event_ = np.array(
+            [
+                [first_event + i, len(event)]
+                for i, event in enumerate(self.particle_list_)
+            ],
+            dtype=int,
+        ).reshape(-1, 2)
         del self.loader_
 
     def _update_after_merge(self, other: BaseStorer) -> None:
